@@ -27,11 +27,12 @@ class Unknown:
 
 class Sym:
     """Symbolic expression: op applied to abstract values."""
-    __slots__ = ('op', 'args')
+    __slots__ = ('op', 'args', 'cond')
 
     def __init__(self, op, *args):
         self.op = op
         self.args = tuple(args)
+        self.cond = None        # phi only: the branch condition (args[0] is the value of the true branch)
 
     def __repr__(self):
         return show(self)
